@@ -200,6 +200,34 @@ def getNumericCompressed (r : R) (col : List Node) (g : Range) : Option (R × Li
           let r5 := if g.from_ > 0 then skipN r4 (nbinc * ((g.nsub : Int) - g.to)) else r4
           some (r5, col')
 
+/-- the increments `bufr_get_numeric_compressed` had read when a read failed -/
+def readIncsPartial (r : R) (nbinc : Nat) : Nat → List Nat
+  | 0 => []
+  | k+1 =>
+    let (v, e, r1) := r.getbits nbinc
+    if e < 0 then [] else v :: readIncsPartial r1 nbinc k
+
+/-- the column `bufr_get_numeric_compressed` leaves behind when it gives up (`getNumericCompressed = none`):
+the subsets whose increment was read before the data ran out carry their value, the others are untouched -/
+def numericPartial (r : R) (col : List Node) (g : Range) : List Node :=
+  match col with
+  | [] => col
+  | cb :: _ =>
+    let nb := cb.enc.nbits
+    let missing := missingIvalue nb
+    let (imin, e1, r1) := r.getbits nb.toNat
+    if e1 < 0 then col else
+    let (nbinc0, e2, r2) := r1.getbits 6
+    if (nbinc0 : Int) > nb then col
+    else
+      let nbinc := if nbinc0 = 63 ∧ (nbinc0 : Int) > nb then 0 else nbinc0
+      if e2 < 0 then col
+      else if nbinc = 0 then col
+      else
+        let r3 := if g.from_ > 1 then skipN r2 (nbinc * (g.from_ - 1)) else r2
+        let msng := missingIvalue nbinc
+        zipWithNodes (fun n v => setBitsValue n (if v = msng then missing else v + imin)) col (readIncsPartial r3 nbinc g.count)
+
 /-- `bufr_get_af_compressed`: `none` = error, otherwise reader and column -/
 def getAfCompressed (r : R) (col : List Node) (g : Range) : Option (R × List Node) :=
   match col with
@@ -330,7 +358,38 @@ def decodeCompressedLoop (T : Tables) (edition : Nat) (s4max : Nat) (g : Range) 
               | .numeric | .codetable | .flagtable | .chngRef => getNumericCompressed r1 col2 g
               | _ => some (r1, col2)
             match body with
-            | none => .ok { st with r := r1, invalid := true, ddos := ddos1,
+            | none =>
+              -- the loop ends here (`node = NULL`), but only after the rest of this iteration: a delayed
+              -- replication factor that was cut short is still expanded, in every copy, with whatever the
+              -- column reader had set before it gave up
+              if st.pendingDelayed ∧ (Desc.f cb.desc = 0 ∧ Desc.x cb.desc = 31) ∧ cb1.enc.type = .numeric then
+                let colP := numericPartial r1 col2 g
+                let stepP := fun (acc : Except XErr (List (List Node) × List (List Node) × Bool))
+                    (p : List Node × Node × List Node) =>
+                  match acc with
+                  | .error e => .error e
+                  | .ok (ds, ts, inv) =>
+                    match p.1 with
+                    | rnode :: dprev =>
+                      match expandNodeDecode T f (some s4max) rnode p.2.1 p.2.2 with
+                      | .error e => .error e
+                      | .ok (lst, eflag) =>
+                        match lst with
+                        | a :: b :: more => .ok ((b :: a :: dprev) :: ds, more :: ts, inv || eflag)
+                        | _ => .error .null
+                    | [] => .error .null
+                match (List.zip st.dones (List.zip colP tails)).foldl stepP (.ok ([], [], false)) with
+                | .error .null => .ok { st with r := r1, invalid := true, early := true, ddos := ddos1,
+                                                dones := st.dones.map (fun _ => []), todos := tails.map (fun _ => []) }
+                | .error e => .error e
+                | .ok (ds, ts, _) =>
+                  if ts.any (fun t => t.length != (ts.headD []).length) then
+                    .ok { st with r := r1, invalid := true, early := true, ddos := ddos1,
+                                  dones := st.dones.map (fun _ => []), todos := tails.map (fun _ => []) }
+                  else
+                    .ok { st with r := r1, invalid := true, ddos := ddos1, dones := ds.reverse, todos := ts.reverse }
+              else
+              .ok { st with r := r1, invalid := true, ddos := ddos1,
                                     dones := List.zipWith (fun n d => n :: d) col2 st.dones, todos := tails }
             | some (r2, col3) =>
               let ddos2 := List.zipWith (fun ddo n => applyOpCrefval T ddo n) ddos1 col3
